@@ -1,0 +1,96 @@
+//go:build verif
+
+package mast
+
+import "fmt"
+
+// This file exists only under the "verif" build tag. It lets an external
+// simulation harness look at (never change) the node objects that a NodeCache
+// holds and at the residency of a tree's root, so that a harness can
+// fingerprint shared nodes and de-duplicate states. Without the tag the file
+// is not compiled and the package is unchanged.
+
+// VerifNodeInfo is an exported description of one in-memory node.
+type VerifNodeInfo struct {
+	Keys   []interface{}
+	Values []interface{}
+	// Links has one entry per child slot: "" for nil, "h:<hash>" for a
+	// persisted child, "p:<pointer>" for an in-memory child.
+	Links  []string
+	Dirty  bool
+	Shared bool
+	// Source is the hash the node was loaded from / stored as, "" if none.
+	Source string
+	// Ptr identifies the object.
+	Ptr string
+}
+
+func verifDescribe(n *mastNode) VerifNodeInfo {
+	info := VerifNodeInfo{
+		Keys:   append([]interface{}(nil), n.Key...),
+		Values: append([]interface{}(nil), n.Value...),
+		Links:  make([]string, len(n.Link)),
+		Dirty:  n.dirty,
+		Shared: n.shared,
+		Ptr:    fmt.Sprintf("%p", n),
+	}
+	if n.source != nil {
+		info.Source = *n.source
+	}
+	for i, l := range n.Link {
+		switch x := l.(type) {
+		case nil:
+			info.Links[i] = ""
+		case string:
+			info.Links[i] = "h:" + x
+		case *mastNode:
+			info.Links[i] = fmt.Sprintf("p:%p", x)
+		default:
+			info.Links[i] = fmt.Sprintf("?:%T", l)
+		}
+	}
+	return info
+}
+
+// VerifNode describes a value handed to or returned from a NodeCache.
+func VerifNode(v interface{}) (VerifNodeInfo, bool) {
+	n, ok := v.(*mastNode)
+	if !ok || n == nil {
+		return VerifNodeInfo{}, false
+	}
+	return verifDescribe(n), true
+}
+
+// VerifRootKind reports the residency of the tree's root link:
+// "nil", "hash" or "mem" (with dirty/shared flags appended for "mem").
+func (m *Mast) VerifRootKind() string {
+	switch x := m.root.(type) {
+	case nil:
+		return "nil"
+	case string:
+		return "hash"
+	case *mastNode:
+		return fmt.Sprintf("mem(dirty=%v,shared=%v,keys=%d)", x.dirty, x.shared, len(x.Key))
+	default:
+		return fmt.Sprintf("?%T", m.root)
+	}
+}
+
+// VerifInMemoryNodes walks the in-memory part of the tree (it never loads
+// anything) and describes every node object reachable through pointer links.
+func (m *Mast) VerifInMemoryNodes() []VerifNodeInfo {
+	var out []VerifNodeInfo
+	var walk func(l interface{})
+	walk = func(l interface{}) {
+		n, ok := l.(*mastNode)
+		if !ok || n == nil {
+			return
+		}
+		out = append(out, verifDescribe(n))
+		for _, c := range n.Link {
+			walk(c)
+		}
+	}
+	walk(m.root)
+	return out
+}
